@@ -96,7 +96,7 @@ fn main() {
     let rich = !ctx.quick();
     for cfg in MODE_CFGS.iter() {
         let maps: Vec<(MapSpec, Beatmap)> = pool(cfg.src, rich).into_iter().map(|s| { let m = s.decode(); (s, m) }).collect();
-        let keysets: Vec<u32> = if cfg.dst == 3 { if rich { vec![0, settings::KEY4, settings::KEY7, settings::KEY1, settings::KEY9, settings::KEY2, settings::KEY3] } else { vec![0, settings::KEY4, settings::KEY2] } } else { vec![0] };
+        let keysets: Vec<u32> = if cfg.dst == 3 { if rich { vec![0, settings::KEY4, settings::KEY7, settings::KEY1, settings::KEY9, settings::KEY2, settings::KEY3, settings::KEY1 | 1 << 20, settings::KEY9 | 1 << 23, settings::KEY3 | 1 << 22, settings::KEY2 | 1 << 21] } else { vec![0, settings::KEY4, settings::KEY2, settings::KEY1 | 1 << 20, settings::KEY9 | 1 << 23] } } else { vec![0] };
         let total = 4096 * keysets.len() as u64 * maps.len() as u64;
         let name = format!("mod-subsets/{}to{}", cfg.src, cfg.dst);
         ctx.universe(&name, total, |idx, l: &mut Local<'_>| {
